@@ -171,6 +171,19 @@ def darray_bits(rng, tier):
             ps = sorted(rng.sample(range(span), cnt))
             for x in ps: v |= 1 << (p + x)
             p += span
+    if rng.random() < 0.35:
+        # final partial block of 32j+1 positions whose span is exactly 65535 / 65536 / 65537: the last
+        # position is a sub-block start, so its u16 offset is at the limit of what a dense block can hold
+        j = rng.randrange(1, 32); cnt = 32 * j + 1
+        span = rng.choice([65535, 65536, 65536, 65537])
+        ps = [0] + sorted(rng.sample(range(1, span), cnt - 2)) + [span]
+        # pad the preceding block so that this one starts a fresh block of 1024
+        have = bin(v).count('1')
+        fill = (-have) % 1024
+        for i in range(fill): v |= 1 << (p + i)
+        p += fill + rng.choice([0, 3])
+        for x in ps: v |= 1 << (p + x)
+        p += span + 1
     n = p + rng.choice([0, 1, 63, 64, 65, 500])
     return n, v
 
